@@ -776,6 +776,39 @@ def b8(ctx, F, nodes, parts=("bound", "best"), rule="C09.B8"):
 
 
 def b6(ctx, F, nodes):
+    # where a best score is kept next to the bound it is only ever raised as well: `best_score = r` under `r > best_score`, or
+    # r the re-search of a probe that beat it
+    for p, nd in nodes.items():
+        if LOWER[p] == "best_score":
+            continue
+        bad_bs, n_bs = [], 0
+        for n, anc in hir.walk(nd.body):
+            if n.get("k") != "Assign" or hir.strip(n["l"]).get("to", {}).get("name") != "best_score" or not any(a.get("k") == "Loop" for a in anc):
+                continue
+            n_bs += 1
+            v = hir.canon(nd.sym(n["r"]))
+            gt = [t for t, pol in nd.guards(n, in_loop=True) if pol is True]
+            ok = False
+            if v[0] == "var":
+                r = v[1]
+                if ("(best_score < %s)" % r) in gt:
+                    ok = True
+                else:
+                    # (several branches may each have a local of that name: any of the searcher calls bound to it)
+                    cands = [c_ for c_ in nd.calls if c_["let"] == r and c_["args"]] or ([nd.let_def(r)] if nd.let_def(r) is not None and nd.let_def(r)["args"] else [])
+                    for d in cands:
+                        hi = _norm(d["args"].get("beta", ("?",)))
+                        if hi[0] == "neg" and hi[1][0] == "var" and ("(best_score < %s)" % hi[1][1]) in gt:
+                            ok = True       # the re-search of a probe that beat the best score
+            elif v[0] == "call" and v[1] == "std::cmp::Ord::max" and ("var", "best_score") in v[2]:
+                ok = True
+            if not ok:
+                bad_bs.append((hir.line(n), "best_score = %s under %s" % (hir.fmt(v, 40), gt[-2:])))
+        if n_bs:
+            ctx.check("C09.B6", "best-score-only-raised:" + SHORT[p], not bad_bs, fn=p, file=nd.fn["file"], line=bad_bs[0][0] if bad_bs else nd.fn["span"][0],
+                      what="the best score of the node is overwritten without having been beaten: a later, worse child lowers the value the "
+                           "node returns and stores", expected="best_score = r only under r > best_score (or r = re-search of such a probe)",
+                      found=bad_bs)
     for p, nd in nodes.items():
         low = LOWER[p]
         short = SHORT[p]
